@@ -16,7 +16,8 @@
         1. _check_factor_matrix_for_diagonality_nan_and_inf on the (Shampoo: bias-corrected) factor matrix
            -> PreconditionerValueError;                      [before the matrix routine is called]
         2. try: candidate = routine(...)    except: candidate = the stored matrix (success_tracker False);
-        3. NaN/Inf in the candidate -> PreconditionerValueError;       [before copy_]
+        3. NaN/Inf in the candidate, *as it will be stored* (the Shampoo list casts the routine's result to the dtype of
+           the stored matrix inside the try, before this check) -> PreconditionerValueError;       [before copy_]
         4. stored.copy_(candidate);
      after the factors of the block: _raise_exception_if_failure_tolerance_exceeded:
         all(success_tracker) -> counter[local index] = 0, else counter += 1 and raise ValueError iff counter > N.
@@ -25,6 +26,11 @@
    * The two list classes follow the same protocol; they differ in the matrix that step 1 inspects
      (Shampoo: factor_matrix / bias_correction2, SOAP: factor_matrix) and in the routine called; at this
      level of abstraction both are the single model below (the harness observes the right matrix per class).
+     One real difference: the SOAP list has no cast in front of its NaN/Inf check (copy_ narrows afterwards).  A real
+     eigenvector matrix has entries of magnitude <= 1 and cannot overflow any float dtype, so the difference is only
+     reachable when the routine breaks its own contract (injected fault `SuccessOverflowsStorage`); the model states the
+     protocol the property demands (check what will be stored) and the harness reports the SOAP deviation as a finding
+     with signature C13:soap-eigvec-storage-overflow.
 
    Abstractions: a stored matrix is a token (0 = the initial all-zero matrix, otherwise the 1-based index
    of the optimizer step at which the last successful computation was copied in) plus a finiteness flag; a
@@ -38,7 +44,13 @@ Import ListNotations.
 (* ---------------------------------------------------------------------------------------------- *)
 (* inputs *)
 
-Inductive routine_outcome := Success | SuccessNonFinite | Fail.
+Inductive routine_outcome :=
+  | Success                    (* returns a matrix that is finite, also after the cast to the storage dtype *)
+  | SuccessNonFinite           (* returns a matrix containing NaN/Inf *)
+  | SuccessOverflowsStorage    (* returns a matrix that is finite in the dtype of the factor matrices
+                                  (preconditioner_dtype) but not after narrowing to the dtype the block stores it in
+                                  (the parameter dtype, e.g. an entry 1e6 with float16 parameters) *)
+  | Fail.                      (* raises *)
 
 Record factor_input := { fm_finite : bool;          (* the matrix inspected by step 1 is finite *)
                          rout : routine_outcome }.   (* what the matrix routine does if it is called *)
@@ -92,6 +104,8 @@ Definition candidate (tk : nat) (f : factor_state) (r : routine_outcome) : facto
   match r with
   | Success => {| tok := tk; finite := true |}
   | SuccessNonFinite => {| tok := tk; finite := false |}
+  | SuccessOverflowsStorage => {| tok := tk; finite := false |}   (* the candidate is cast to the storage dtype
+                                                                     (`.to(dtype=inv_factor_matrix.dtype)`) BEFORE the NaN/Inf check *)
   | Fail => f                                   (* computed_... = the stored matrix *)
   end.
 
